@@ -10,7 +10,7 @@ from .common import Vals, Stubs, real_env, I, cls_name
 
 MANIFEST_ENTRY = {
     'category': 'proof',
-    'text': 'contains, starts_with, ends_with, find, `in`, length, concatenation, trim/upper/lower, chr/ord and escape_pattern are proved to apply the corresponding z3 string-theory operation to the raw string payloads for all strings, and the mutual-consistency laws (contains iff find >= 0 iff s = a+t+b, starts_with/ends_with vs. prefix/suffix, |s+t| = |s|+|t|, ord(chr(n)) = n) are z3 lemmas over those specs; split/join, replace, reverse, lines/words, s/sprintf (regex-based or written in Checkerlang) are covered by bounded runtime contracts on the real interpreter; the padding loop of s() (extracted from the real FuncS.execute on every run) leaves the rendered value intact and pads it on the stated side with the stated fill character to exactly max(len, width) characters, for all texts and widths',
+    'text': 'contains, starts_with, ends_with, find, `in`, length, concatenation, trim/upper/lower, chr/ord and escape_pattern are proved to apply the corresponding z3 string-theory operation to the raw string payloads for all strings, and the mutual-consistency laws (contains iff find >= 0 iff s = a+t+b, starts_with/ends_with vs. prefix/suffix, |s+t| = |s|+|t|, ord(chr(n)) = n) are z3 lemmas over those specs; split/join, replace, reverse, lines/words, s/sprintf (regex-based or written in Checkerlang) are covered by bounded runtime contracts on the real interpreter; the padding loop of s() (extracted from the real FuncS.execute on every run) leaves the rendered value intact and pads it on the stated side with the stated fill character to exactly max(len, width) characters, for all texts and widths; replace on strings with thousands of occurrences and with a start index (bounded)',
     'note': "str.find/startswith/endswith/strip/upper/lower of CPython assumed (idempotence of case mapping and trimming is the host's); regex and Checkerlang-defined functions bounded only",
     'technique': 'deductive verification: pyvc VCs from the real AST + z3/cvc5 string theory; bounded runtime contracts for regex/CKL functions',
 }
